@@ -71,6 +71,7 @@ NOT covered by this tier
 import contextlib
 import inspect
 import json
+import traceback
 import types
 import warnings
 
@@ -315,6 +316,7 @@ class World:
     def obj(self, R, C):
         """an RDMs object holding the resample (R, C), built with the constructor from the spec arrays (an INPUT)"""
         from rsatoolbox.rdm import RDMs
+        C = sorted(C)       # source order, as every selection made by RDMs.subset_pattern / subsample_pattern
         n = len(C)
         mats = np.full((len(R), n, n), np.nan)
         for k, r in enumerate(R):
@@ -494,6 +496,11 @@ def observe(case):
         state = np.random.get_state()
         try:
             _MEMO[key] = FAMILIES[case['routine']](case)
+        except Exception as e:      # the routine (or the monitor) broke down: reported once, under the first clause
+            o = Obs()
+            tb = traceback.format_exc().strip().split('\n')[-7:]
+            o.add('evaluations', f'exception {type(e).__name__}: {e} | ' + ' / '.join(t.strip() for t in tb))
+            _MEMO[key] = o
         finally:
             np.random.set_state(state)
     return _MEMO[key]
@@ -688,8 +695,8 @@ def _eval_folds(W, o, sides_list, fit_desc, fits, cursor, where):
     m = len(W.models)
     out = np.full((m, len(sides_list)), np.nan)
     for f, s in enumerate(sides_list):
-        if len(s['R_tr']) == 0 or len(s['R_te']) == 0 or len(s['C_tr']) <= 2 or len(s['C_te']) <= 2:
-            continue
+        if len(s['R_tr']) == 0 or len(s['R_te']) == 0 or len(set(s['C_tr'])) < 3 or len(set(s['C_te'])) < 3:
+            continue        # too small to evaluate: no RDM, or fewer than 3 distinct conditions (at most one distinct dissimilarity)
         idx_tr = W.pairs(s['C_tr'])
         train_vals = np.sort(W.D[s['R_tr']][:, idx_tr].ravel())
         for j in range(m):
@@ -959,7 +966,7 @@ def fam_dual_random(case):
     from rsatoolbox.inference import eval_dual_bootstrap_random
     W, o = World(case), Obs()
     N, n_cv, bt, corr = case['N'], case['n_cv'], case['boot_type'], case['use_correction']
-    n_pattern, n_rdm = case['n_pattern'], case['n_rdm']
+    n_pattern, n_rdm = case['test_pattern'], case['test_rdm']       # size of the random test sets (in units)
     sampler, rr, rp = BTYPE[bt]
     res, log, fit_desc = _run_twice(W, lambda fit: eval_dual_bootstrap_random(
         W.models, W.data, method=W.method, fitter=fit, n_pattern=n_pattern, n_rdm=n_rdm, N=N, n_cv=n_cv,
@@ -1055,7 +1062,7 @@ SHAPES = {   # label -> n_rdm, n_cond, rdm group labels (None: every RDM its own
     'one-rdm': dict(n_rdm=1, n_cond=5, rg=None, pg=None),
 }
 MODELSETS = {'fixed1': ['fixed'], 'fixed2': ['fixed', 'fixed'], 'all4': ['fixed', 'weighted', 'select', 'interpolate'],
-             'flex3': ['select', 'weighted', 'select'], 'sel-int': ['select', 'interpolate'], 'sel2': ['select', 'fixed']}
+             'flex3': ['weighted', 'select', 'interpolate'], 'sel-int': ['select', 'interpolate'], 'sel2': ['select', 'fixed']}
 APPLICABLE = {'eval_fixed': ('evaluations', 'noise-ceiling', 'variances', 'dof', 'reproducible'),
               'eval_bootstrap*': ('evaluations', 'noise-ceiling', 'variances', 'dof', 'reproducible'),
               'crossval': ('evaluations', 'noise-ceiling', 'fitter-view', 'reproducible'),
@@ -1078,11 +1085,8 @@ def _run_family(run, family, domain, cases, bds):
             these[clause] = (Bounded(run, f'C04/{family}/{clause}', f'C04/{family}/oracle/{ob}', domain, function=family), orc)
     n_nan = n_ok = 0
     for case, ic in cases:
-        try:
-            o = observe(case)
-            n_nan, n_ok = n_nan + o.nan_rows, n_ok + o.ok_rows
-        except Exception:
-            pass                        # the clause oracles raise again inside Bounded.check, which records it
+        o = observe(case)
+        n_nan, n_ok = n_nan + o.nan_rows, n_ok + o.ok_rows
         for clause, (bd, orc) in these.items():
             bd.check(orc, case, ic, function=case['routine'])
     for clause, (bd, orc) in these.items():
@@ -1107,6 +1111,9 @@ def _cv_folds(shape, kind):
     if kind == 'resampled':         # folds of a bootstrap resample: repeated RDMs and repeated condition labels
         return [dict(R_tr=[rows[0], rows[0], rows[-1]], R_te=[rows[1], rows[1]], L_tr=labs[h:] + labs[h:h + 1], L_te=labs[:h] + labs[:1]),
                 dict(R_tr=[rows[1], rows[1]], R_te=[rows[0], rows[-1], rows[0]], L_tr=labs[:h] + labs[:1], L_te=labs[h:] + labs[h:h + 1])]
+    if kind == 'lt3-distinct':      # >= 3 test conditions with multiplicity, but only 2 distinct ones: nothing to evaluate
+        return [dict(R_tr=rows, R_te=rows, L_tr=labs[2:], L_te=[labs[0], labs[0], labs[1]]),
+                dict(R_tr=rows, R_te=rows, L_tr=labs[:3], L_te=labs[3:])]
     if kind == 'too-small':         # one usable fold, one with 2 test conditions, one without training RDMs
         return [dict(R_tr=rows, R_te=rows, L_tr=labs[3:], L_te=labs[:3]), dict(R_tr=rows, R_te=rows, L_tr=labs[2:], L_te=labs[:2]),
                 dict(R_tr=[], R_te=rows, L_tr=labs[3:], L_te=labs[:3]), dict(R_tr=rows[1:], R_te=rows[:1], L_tr=labs[:2], L_te=labs[2:])]
@@ -1137,7 +1144,7 @@ def tier_c(run, thorough):
             for k, shape in enumerate(('tiny', 'identity', 'grouped-rdms', 'grouped-conditions', 'grouped-both', 'string-groups')):
                 for q, ms in enumerate(('fixed2', 'all4', 'fixed1')):
                     for b, bnc in enumerate((True, False)):
-                        if ms == 'fixed1' and not (bnc is False or thorough):
+                        if ms == 'fixed1' and not thorough and not (bnc is False and shape in ('tiny', 'grouped-both')):
                             continue
                         for method in (METHODS if thorough else (meth(r + k + q + b),)):
                             cases.append((_case(shape, ms, method, seed, routine=fn, N=N, boot_noise_ceil=bnc,
@@ -1152,17 +1159,22 @@ def tier_c(run, thorough):
     for seed in seeds:
         k = 0
         for shape in ('cv-identity', 'cv-grouped'):
-            for kind in ('conditions', 'rdms', 'both', 'resampled', 'too-small'):
+            for kind in ('conditions', 'rdms', 'both', 'resampled', 'too-small', 'lt3-distinct'):
+                if kind == 'lt3-distinct' and shape != 'cv-identity':
+                    continue
                 for fitter, ms in (('none', 'sel-int'), ('callable', 'all4'), ('list', 'flex3'), ('none', 'sel2')):
                     for ceil in ('none', 'given'):
-                        if kind == 'too-small' and ceil == 'given':
-                            continue      # cv_noise_ceiling has no notion of unusable folds; see C04_findings.md
+                        if kind in ('too-small', 'resampled', 'lt3-distinct') and ceil == 'given':
+                            # cv_noise_ceiling has no notion of unusable folds (it compares whatever it is given), and it wants
+                            # the ceiling objects of a resample together with label lists WITHOUT multiplicity while crossval
+                            # wants them WITH multiplicity: inside the library this only happens via _internal_cv (covered there)
+                            continue
                         k += 1
                         if not thorough and fitter == 'none' and ms == 'sel-int' and kind not in ('conditions', 'resampled'):
                             continue
                         for method in (METHODS if thorough else (meth(k),)):
                             cases.append((_case(shape, ms, method, seed, routine='crossval', folds=_cv_folds(shape, kind),
-                                                fitter=fitter, ceil=ceil), f'{kind}-folds'))
+                                                fitter=fitter, ceil=ceil), 'fold-lt3-distinct' if kind == 'lt3-distinct' else f'{kind}-folds'))
             cases.append((_case(shape, 'all4', meth(k), seed, routine='crossval', folds=_cv_folds(shape, 'both'),
                                 fitter='callable', ceil='none', calc_noise_ceil=False), 'both-folds'))
     _run_family(run, 'crossval', 'crossval on hand-made folds (condition folds, leave-one-RDM-out, both, folds of a resample with '
@@ -1178,9 +1190,9 @@ def tier_c(run, thorough):
         for bt in ('both', 'pattern', 'rdm'):
             for shape, kp, kr in (('cv-identity', 2, 1), ('cv-identity', 1, 2), ('cv-grouped', 2, 2), ('grouped-both', 1, 2),
                                   ('cv-grouped', 1, 1)):
-                for fitter, ms in (('none', 'sel2'), ('callable', 'all4'), ('list', 'flex3')):
+                for q, (fitter, ms) in enumerate((('none', 'sel2'), ('callable', 'all4'), ('list', 'flex3'))):
                     k += 1
-                    if not thorough and (k + seed) % 2 and not (fitter == 'callable'):
+                    if not thorough and (k // 3 + seed) % 3 != q:      # quick: one fitter form per (boot_type, shape, k), rotating
                         continue
                     n_cv, corr = (2, True) if k % 3 else (1, False)
                     if k % 5 == 0:
@@ -1206,11 +1218,11 @@ def tier_c(run, thorough):
                 if not thorough and k % 2 == 0:
                     continue
                 n_cv, corr = (2, True) if k % 3 else (2, False)
-                cases.append((_case(shape, ms, meth(k), seed, routine='eval_dual_bootstrap', k_pattern=kp, k_rdm=kr, N=N + (4 if kp == 1 else 0),
+                cases.append((_case(shape, ms, meth(k), seed, routine='eval_dual_bootstrap', k_pattern=kp, k_rdm=kr, N=N + (2 if kp == 1 else 0),
                                     n_cv=n_cv, use_correction=corr, fitter=fitter), f'{shape},k={kp}x{kr}'))
     _run_family(run, 'eval_dual_bootstrap', 'eval_dual_bootstrap; N=%d..%d; k_pattern, k_rdm in {1,2}; n_cv 2 with and without correction; '
                 '3x5, 5x7 (grouped), 4x9, 6x10 (grouped) data; fitter None / callable / list; methods cosine, corr, rho-a; %d data seeds'
-                % (N, N + 4, len(seeds)), cases, bds)
+                % (N, N + 2, len(seeds)), cases, bds)
 
     # ---- eval_dual_bootstrap_random ----
     cases = []
@@ -1218,14 +1230,15 @@ def tier_c(run, thorough):
     for seed in seeds:
         k = 0
         for bt in ('both', 'pattern', 'rdm'):
-            for shape, npat, nr in (('cv-identity', 2, 1), ('cv-grouped', 2, 2), ('cv-grouped', 0, 1), ('grouped-both', 1, 0), ('identity', 0, 0)):
+            for shape, npat, nr in (('cv-identity', 3, 1), ('cv-grouped', 3, 2), ('cv-grouped', 0, 1), ('cv-identity', 4, 0), ('identity', 0, 0)):
                 for fitter, ms in (('none', 'sel2'), ('callable', 'all4'), ('list', 'flex3')):
                     k += 1
-                    if not thorough and (k + seed) % 3 != 1:
+                    if not thorough and (k + seed) % 2 != 1:
                         continue
-                    n_cv, corr = (2, True) if k % 2 else (3, False)
-                    cases.append((_case(shape, ms, meth(k), seed, routine='eval_dual_bootstrap_random', boot_type=bt, n_pattern=npat,
-                                        n_rdm=nr, N=N, n_cv=n_cv, use_correction=corr, fitter=fitter), f'{shape},boot_type={bt}'))
+                    n_cv, corr = ((2, True), (2, True), (3, True), (2, True), (2, False), (2, True), (1, False))[k % 7]
+                    cases.append((_case(shape, ms, meth(k), seed, routine='eval_dual_bootstrap_random', boot_type=bt, test_pattern=npat,
+                                        test_rdm=nr, N=N, n_cv=n_cv, use_correction=corr, fitter=fitter),
+                                  'n_cv!=2' if n_cv != 2 else ('n_cv=2' if corr else 'n_cv=2,uncorrected')))
     _run_family(run, 'eval_dual_bootstrap_random', 'eval_dual_bootstrap_random boot_type both/pattern/rdm; N=%d; test sets of 0..2 '
                 'condition units and 0..2 RDM units; n_cv 2 (corrected) / 3; 3x5, 5x7 (grouped), 4x9, 6x10 (grouped) data; fitter None / '
                 'callable / list; methods cosine, corr, rho-a; %d data seeds' % (N, len(seeds)), cases, bds)
